@@ -30,6 +30,7 @@ fn main() {
         "lock-run" => lock::run(rest),
         "worker-run" => worker::run(rest),
         "disk-probe" => disk::probe(rest),
+        "reseal" => disk::reseal(rest),
         "func-run" => func::run(rest),
         #[cfg(feature = "capsule")]
         "capsule-run" => capsule::run(rest),
